@@ -482,6 +482,109 @@ func extractPipe(w *strings.Builder) error {
 		}
 	}
 
+	// --- flattening, list-request preconditions, swagger path grouping (shapes the models rely on)
+	condStrings := func(rel, fn string) []string {
+		_, f, err := parseFile(rel)
+		if err != nil {
+			return []string{"<" + rel + " unreadable>"}
+		}
+		fd := funcDecl(f, fn)
+		if fd == nil {
+			return []string{"<" + fn + " not found>"}
+		}
+		out := []string{}
+		var render func(e ast.Expr) string
+		render = func(e ast.Expr) string {
+			switch x := e.(type) {
+			case *ast.BinaryExpr:
+				return render(x.X) + " " + x.Op.String() + " " + render(x.Y)
+			case *ast.UnaryExpr:
+				return x.Op.String() + render(x.X)
+			case *ast.CallExpr:
+				args := []string{}
+				for _, a := range x.Args {
+					args = append(args, render(a))
+				}
+				return exprString(x.Fun) + "(" + strings.Join(args, ", ") + ")"
+			case *ast.ParenExpr:
+				return "(" + render(x.X) + ")"
+			}
+			return exprString(e)
+		}
+		ast.Inspect(fd.Body, func(n ast.Node) bool {
+			switch x := n.(type) {
+			case *ast.IfStmt:
+				out = append(out, "if "+render(x.Cond))
+			case *ast.AssignStmt:
+				if len(x.Lhs) == 1 && len(x.Rhs) == 1 {
+					if ce, ok := x.Rhs[0].(*ast.CallExpr); ok && exprString(ce.Fun) == "append" {
+						out = append(out, exprString(x.Lhs[0])+" = "+render(ce))
+					}
+				}
+			case *ast.BranchStmt:
+				out = append(out, x.Tok.String())
+			}
+			return true
+		})
+		return out
+	}
+	clientPropsFacts := condStrings("lib/j5schema/root_schema.go", "clientProperties")
+	swaggerAddFacts := []string{}
+	for _, f := range condStrings("internal/export/swagger.go", "addMethod") {
+		if strings.Contains(f, "MapKey") || strings.Contains(f, "found") || f == "break" || strings.HasPrefix(f, "dd.Paths") {
+			swaggerAddFacts = append(swaggerAddFacts, f)
+		}
+	}
+	fillListFacts := []string{}
+	for _, f := range condStrings("internal/j5client/package_from_source.go", "fillRequest") {
+		if strings.Contains(f, "isQueryRequest") || strings.Contains(f, "responseSchema") {
+			fillListFacts = append(fillListFacts, f)
+		}
+	}
+	listShapeFacts := []string{}
+	for _, f := range condStrings("internal/j5client/list.go", "buildListRequest") {
+		if strings.Contains(f, "foundArray") || f == "if !ok" {
+			listShapeFacts = append(listShapeFacts, f)
+		}
+	}
+	// outer type switch of buildListRequest's callback: which j5schema field types it looks at
+	listOuterArms := []string{}
+	if fd := funcDecl(lst, "buildListRequest"); fd != nil {
+		done := false
+		ast.Inspect(fd.Body, func(n ast.Node) bool {
+			ts, ok := n.(*ast.TypeSwitchStmt)
+			if !ok || done {
+				return !done
+			}
+			local := []string{}
+			for _, c := range ts.Body.List {
+				for _, e := range c.(*ast.CaseClause).List {
+					local = append(local, exprString(e))
+				}
+			}
+			for _, a := range local {
+				if strings.HasPrefix(a, "*j5schema.") {
+					listOuterArms = local
+					done = true
+					return false
+				}
+			}
+			return true
+		})
+	}
+	// BuildSwagger: which services reach the document
+	swaggerServiceLoops := []string{}
+	if _, cf, err := parseFile("internal/export/convert.go"); err == nil {
+		if fd := funcDecl(cf, "BuildSwagger"); fd != nil {
+			ast.Inspect(fd.Body, func(n ast.Node) bool {
+				if rs, ok := n.(*ast.RangeStmt); ok {
+					swaggerServiceLoops = append(swaggerServiceLoops, "range "+exprString(rs.X))
+				}
+				return true
+			})
+		}
+	}
+
 	fmt.Fprintf(w, "namespace J5V.Generated.Pipe\n")
 	fmt.Fprintf(w, "def fieldOneofMembers : List String := %s\n", leanStrList(members))
 	fmt.Fprintf(w, "def convertSchemaArms : List String := %s\n", leanStrList(convArms))
@@ -509,6 +612,12 @@ func extractPipe(w *strings.Builder) error {
 	fmt.Fprintf(w, "def optionByNameFacts : List String := %s\n", leanStrList(optionByNameFacts))
 	fmt.Fprintf(w, "def buildEnumFacts : List String := %s\n", leanStrList(buildEnumFacts))
 	fmt.Fprintf(w, "def listEnumLookupFacts : List String := %s\n", leanStrList(listEnumFacts))
+	fmt.Fprintf(w, "def clientPropertiesFacts : List String := %s\n", leanStrList(clientPropsFacts))
+	fmt.Fprintf(w, "def swaggerAddMethodFacts : List String := %s\n", leanStrList(swaggerAddFacts))
+	fmt.Fprintf(w, "def fillRequestListFacts : List String := %s\n", leanStrList(fillListFacts))
+	fmt.Fprintf(w, "def listRequestShapeFacts : List String := %s\n", leanStrList(listShapeFacts))
+	fmt.Fprintf(w, "def listRequestOuterArms : List String := %s\n", leanStrList(listOuterArms))
+	fmt.Fprintf(w, "def swaggerRangeLoops : List String := %s\n", leanStrList(swaggerServiceLoops))
 	fmt.Fprintf(w, "end J5V.Generated.Pipe\n")
 	return nil
 }
